@@ -28,6 +28,13 @@ SHAPES = GROWTH + [
     ["a(i,j) = b(i,j,k) * c(k)", {"a": "sd", "b": "dds", "c": "d"}],
     ["a(i,l) = b(i,j) * c(j,k) * d(k,l)", {"a": "sd", "b": "ds", "c": "ds", "d": "dd"}],
     ["a() = b(i,j) * c(i,j)", {"a": "", "b": "ds", "c": "ss"}],
+    # a compressed output layer above an index at which a sparse addend and a non-vanishing addend meet:
+    # rows fed only by the loop that runs after the sparse operand is exhausted
+    ["a(i,j) = b(i,j) + c(i,j)", {"a": "sd", "b": "ds", "c": "dd"}],
+    ["a(i,j) = b(i,j) + c(i,j)", {"a": "ss", "b": "ds", "c": "dd"}],
+    ["a(i) = (b(i,j) + c(i,j)) * d(j)", {"a": "s", "b": "ds", "c": "dd", "d": "d"}],
+    ["a(i,j) = b(i,j) + c(j)", {"a": "sd", "b": "ds", "c": "d"}],
+    ["a(i,j,k) = b(i,j,k) + c(i,j,k)", {"a": "ssd", "b": "dds", "c": "ddd"}],
 ]
 
 
